@@ -249,7 +249,7 @@ int main(int argc, char **argv)
    static char line[1 << 16];
    vinstall_traps();
    if (argc >= 4 && !strcmp(argv[1], "rand")) {
-      vrng m; long i, n = atol(argv[3]); m.s = strtoull(argv[2], 0, 10) * 0x9E3779B97F4A7C15ULL + 0xC0851115ULL;
+      vrng m; long i, n = atol(argv[3]); m.s = strtoull(argv[2], 0, 10) * 0x9E3779B97F4A7C15ULL + 0xC0851115ULL; m.s = vnext(&m);
       for (i = 0; i < n; i++) { vrng r; r.s = vnext(&m); gen_line(&r, line, sizeof line); run_line(line); }
       printf("# sframe cases=%ld ok=%ld err=%ld voiced=%ld lbrr=%ld delta-lag=%ld nlsf-extension-symbols=%ld blocks=%ld pulses-beyond-16=%ld\n",
          n, n_ok, n_err, n_voiced, n_lbrr, n_delta, n_ext, n_blocks, n_shift);
